@@ -132,12 +132,18 @@ namespace igris
 
                 if (tim.check(curtime))
                 {
+                    auto start = tim._start;
+                    auto interval = tim._interval;
                     tim.execute();
                     auto linked = tim.is_planned();
                     if (linked)
                     {
                         tim.unplan();
-                        tim.shift();
+                        // a timer re-planned by its own callback keeps the
+                        // deadline it asked for; otherwise re-arm one period
+                        // after the previous deadline
+                        if (tim._start == start && tim._interval == interval)
+                            tim.shift();
                         plan(tim);
                     }
                 }
